@@ -9,10 +9,10 @@
 (* notes are clipped, which is what start_lead / end_lead are for.          *)
 (***************************************************************************)
 EXTENDS Field, TLC, Json
-CONSTANTS MaxNotes, Times, Cols, Lens, Cfgs, Emit, NeedLead
+CONSTANTS MaxNotes, Times, Cols, Lens, Cfgs, Emit, NeedLead, NeedCover
 VARIABLES notes, cfg, done
 C(dpp, nw, hh, lh, clw, sl, el, pad) == [dpp |-> dpp, nw |-> nw, hh |-> hh, lh |-> lh, clw |-> clw, sl |-> sl, el |-> el, pad |-> pad]
-CfgsQ == { C(5, 4, 2, 2, 1, 20, 20, 0), C(5, 3, 1, 2, 2, 0, 0, 1), C(2, 4, 3, 1, 1, 12, 12, 0) }
+CfgsQ == { C(5, 4, 2, 2, 1, 20, 20, 0), C(5, 3, 1, 2, 2, 0, 0, 1), C(2, 4, 3, 1, 1, 12, 12, 0), C(5, 4, 1, 1, 1, 20, 40, 0) }
 CfgsT == CfgsQ \cup { C(5, 4, 2, 2, 0, 20, 20, 3), C(3, 5, 2, 3, 1, 12, 30, 0), C(10, 2, 1, 1, 1, 0, 20, 0) }
 Init == notes = <<>> /\ cfg \in Cfgs /\ done = FALSE
 Add == /\ ~done /\ Len(notes) < MaxNotes
@@ -41,5 +41,10 @@ HitsRestOnLines == done => \A i \in DOMAIN notes : \A d \in Divs :
 GapsAvoidNotes == done => \A i \in DOMAIN notes : \A b \in Boxes(notes, cfg, notes[i]) : \A x \in GapXs(notes, cfg) : ~(x >= b.x0 /\ x < b.x0 + b.w)
 \* the coded separator positions are the gaps exactly when the line width is at most 1
 CodedSepsAreGapsWhenThin == (done /\ Keys(notes) > 1) => ((cfg.clw <= 1) <=> (CodedSepXs(notes, cfg) = GapXs(notes, cfg)))
+\* holds: the canvas ends `el` after the last START time, so the tail of a late hold is clipped unless the end lead also
+\* covers the hold's length (HoldsInside; FieldMC_sanity2.cfg demands it from the ordinary lead alone and must be violated)
+LeadCovers(c, n) == c.el >= n + (c.hh + c.lh + 1) * c.dpp
+HoldsInside == (done /\ Lead(cfg)) => \A i \in DOMAIN notes : (notes[i].n > 0 /\ (NeedCover => LeadCovers(cfg, notes[i].n))) =>
+    \A b \in Boxes(notes, cfg, notes[i]) : Inside(notes, cfg, b)
 EmitScn == (Emit /\ done) => PrintT(ToJson([kind |-> "field", notes |-> notes, cfg |-> cfg]))
 =============================================================================
